@@ -137,7 +137,7 @@ class TimeTriggerDecorator(TriggerDecorator):
                     # time_next is the local (wall clock) trigger time, so that's the one to compare
                     # against the local time now; time_next_adj only gives the duration to sleep
                     now = dt_now()
-                    timeout = (time_next - now).total_seconds()
+                    timeout = trigger.local_seconds_until(time_next, now)
                     if timeout <= 1e-6:
                         break
                     _LOGGER.debug("%s additional sleep for %s seconds", self, timeout)
